@@ -349,6 +349,12 @@ class Report:
         # a concrete failing input makes the companion "broken obligation" reports redundant only
         # if they are about the same stream; keep all, concrete ones first
         self.violations.sort(key=lambda v: v["no_input"])
+        import glob
+        for old in glob.glob(os.path.join(REPLAYS, f"{self.pid}-*.json")):   # replays of earlier runs are stale
+            try:
+                os.remove(old)
+            except OSError:
+                pass
         for v in self.violations:
             h = hashlib.sha1((self.pid + v["key"]).encode()).hexdigest()[:10]
             path = os.path.join(REPLAYS, f"{self.pid}-{h}.json")
